@@ -6,6 +6,7 @@ Coq model is evaluated on the same population / parameters / recorded draws (cor
 """
 import glob
 import itertools
+import functools
 import json
 import math
 import os
@@ -174,32 +175,45 @@ def main(run):
     class Ind(list):
         pass
 
+    # fit_attr route: in "alt" mode the selection criterion is stored under the attribute `alt`, the operators are called
+    # with fit_attr="alt", and the attribute `fitness` holds a DECOY of the opposite ranking (an operator, or a helper it
+    # delegates to, that falls back to `fitness` is judged against the criterion it was told to use)
+    ATTR = ["fitness"]
+
+    def fit(x):
+        return getattr(x, ATTR[0])
+
     def build(w, rows, sizes, cds=None):
         F = fitcls(w)
         pop = []
         for i, (vals, sz) in enumerate(zip(rows, sizes)):
             x = Ind([7] * sz)
-            x.fitness = F()
-            x.fitness.values = tuple(float(v) for v in vals)
+            setattr(x, ATTR[0], F())
+            fit(x).values = tuple(float(v) for v in vals)
             if cds is not None:
-                x.fitness.crowding_dist = cds[i]
+                fit(x).crowding_dist = cds[i]
+            if ATTR[0] != "fitness":
+                x.fitness = F()
+                x.fitness.values = tuple(abs(float(v)) + 1.0 if j == 0 else -float(v) for j, v in enumerate(rows[len(rows) - 1 - i]))
             pop.append(x)
         return pop
 
     def snapshot(pop):
         return ([id(x) for x in pop],
-                [(list(x), id(x.fitness), x.fitness.wvalues, x.fitness.values,
-                  getattr(x.fitness, "crowding_dist", None), sorted(x.__dict__), sorted(x.fitness.__dict__)) for x in pop])
+                [(list(x), id(fit(x)), fit(x).wvalues, fit(x).values, id(x.fitness), x.fitness.wvalues,
+                  getattr(fit(x), "crowding_dist", None), sorted(x.__dict__), sorted(fit(x).__dict__)) for x in pop])
 
     def cind(i, x):
-        cdv = getattr(x.fitness, "crowding_dist", None)
+        cdv = getattr(fit(x), "crowding_dist", None)
         cdt = "None" if cdv is None or cdv == float("inf") else "(Some %s)" % q(cdv)
-        return "(mkind %s %s %s %s)" % (cnat(i), ql(x.fitness.wvalues), cnat(len(x)), cdt)
+        return "(mkind %s %s %s %s)" % (cnat(i), ql(fit(x).wvalues), cnat(len(x)), cdt)
 
     def cpop(pop):
         return clist([cind(i, x) for i, x in enumerate(pop)])
 
     def call(fn, args, **px):
+        if ATTR[0] != "fitness":
+            fn = functools.partial(fn, fit_attr=ATTR[0])
         proxy = ScriptedRandom(rng, **px)
         old1, old2 = selmod.random, emomod.random
         selmod.random = proxy
@@ -287,6 +301,8 @@ def main(run):
 
     def base_case(op, w, rows, sizes, **kw):
         c = {"op": op, "weights": [str(x) for x in w], "values": [[str(v) for v in r] for r in rows], "sizes": sizes}
+        if ATTR[0] != "fitness":
+            c["fit_attr"] = ATTR[0]
         c.update(kw)
         return c
 
@@ -966,6 +982,25 @@ def main(run):
 
 
     random_part(run.scale(220, 4000), run.scale(200, 3000), run.scale(260, 4000), run.scale(150, 2500), run.scale(200, 3000))
+
+    # fit_attr route: the same generators with the criterion under another attribute and a decoy under `fitness`
+    # (operators without a fit_attr parameter -- selRandom, lexicase, DCD -- keep the default route)
+    def default_route(f):
+        def g(*a, **k):
+            old = ATTR[0]
+            ATTR[0] = "fitness"
+            try:
+                return f(*a, **k)
+            finally:
+                ATTR[0] = old
+        return g
+    do_random, do_lex, do_dcd = default_route(do_random), default_route(do_lex), default_route(do_dcd)
+    ATTR[0] = "alt"
+    try:
+        random_part(run.scale(70, 1200), run.scale(60, 900), run.scale(80, 1200), 0, 0)
+    finally:
+        ATTR[0] = "fitness"
+    run.extra_cov["fit_attr_route_cases"] = sum(1 for c in cases if c.get("fit_attr"))
 
     def search(r):
         """only runs when an obligation or the correspondence broke and the regular cases gave no failing input:
